@@ -91,6 +91,20 @@ def plainWord (cs : List Char) : Bool :=
   | c :: rest => isLetter c && rest.all (fun d => isLetter d || isDigit d)
   | [] => false
 
+theorem dotTDot_false (l : List Char) (h : ∀ c tl, l = c :: tl → c ≠ '.') : dotTDot l = false := by
+  unfold dotTDot
+  split
+  · rename_i t tail
+    exact absurd rfl (h '.' _ rfl)
+  · rfl
+
+theorem delim_not_dot {rest : List Char} (h : Delim rest) : ∀ c tl, rest = c :: tl → c ≠ '.' := by
+  intro c tl e
+  rcases h with h | ⟨c', tl', h, hc⟩
+  · rw [h] at e; cases e
+  · rw [h] at e; injection e with e1 _; subst e1
+    rcases hc with rfl | rfl | rfl | rfl <;> decide
+
 theorem lex_word (f : Nat) (cs rest : List Char) (pw : Bool) (acc : List Tok) (hw : plainWord cs = true)
     (hd : Delim rest) : lexAux (f+1) (cs ++ rest) pw acc = lexAux f rest true (.word (String.ofList cs) :: acc) := by
   cases cs with
@@ -129,15 +143,32 @@ theorem lex_word (f : Nat) (cs rest : List Char) (pw : Bool) (acc : List Tok) (h
     have h13 : c ≠ '|' := letter_ne hc (by decide)
     have h14 : c ≠ '$' := letter_ne hc (by decide)
     have h15 : c ≠ '_' := letter_ne hc (by decide)
-    simp [lexAux, h1, h2, h3, h4, h5, h6, h7, h8, h9, h10, h11, h12, h13, h14, h15, letter_not_digit hc, hc, hspan, hsimple]
+    have h16 : c ≠ '\n' := letter_ne hc (by decide)
+    have h17 : c ≠ '\r' := letter_ne hc (by decide)
+    have h18 : c ≠ ':' := letter_ne hc (by decide)
+    have h19 : c ≠ '=' := letter_ne hc (by decide)
+    have h20 : c ≠ '>' := letter_ne hc (by decide)
+    have hst : dotTDot (tl ++ rest) = false := by
+      apply dotTDot_false
+      intro d tl' e
+      cases tl with
+      | nil => exact delim_not_dot hd d tl' (by simpa using e)
+      | cons x xs =>
+        simp at e
+        rcases htl x List.mem_cons_self with h | h
+        · rw [← e.1]; exact letter_ne h (by decide)
+        · rw [← e.1]; exact digit_ne h (by decide)
+    simp [lexAux, h1, h2, h3, h4, h5, h6, h7, h8, h9, h10, h11, h12, h13, h14, h15, h16, h17, h18, h19, h20, hst,
+      letter_not_digit hc, hc, hspan, hsimple]
 
 theorem digit_specials {c : Char} (hc : isDigit c = true) :
     c ≠ ' ' ∧ c ≠ '\t' ∧ c ≠ '/' ∧ c ≠ '(' ∧ c ≠ ')' ∧ c ≠ ',' ∧ c ≠ '+' ∧ c ≠ '*' ∧ c ≠ '!' ∧ c ≠ '-' ∧ c ≠ '<'
-      ∧ c ≠ '&' ∧ c ≠ '|' :=
+      ∧ c ≠ '&' ∧ c ≠ '|' ∧ c ≠ '\n' ∧ c ≠ '\r' ∧ c ≠ ':' ∧ c ≠ '=' ∧ c ≠ '>' ∧ c ≠ 's' ∧ c ≠ 'S' :=
   ⟨digit_ne hc (by decide), digit_ne hc (by decide), digit_ne hc (by decide), digit_ne hc (by decide),
    digit_ne hc (by decide), digit_ne hc (by decide), digit_ne hc (by decide), digit_ne hc (by decide),
    digit_ne hc (by decide), digit_ne hc (by decide), digit_ne hc (by decide), digit_ne hc (by decide),
-   digit_ne hc (by decide)⟩
+   digit_ne hc (by decide), digit_ne hc (by decide), digit_ne hc (by decide), digit_ne hc (by decide),
+   digit_ne hc (by decide), digit_ne hc (by decide), digit_ne hc (by decide), digit_ne hc (by decide)⟩
 
 theorem lex_int (f : Nat) (ds rest : List Char) (pw : Bool) (acc : List Tok) (hne : ds ≠ [])
     (hds : ∀ d ∈ ds, isDigit d = true) (hd : Delim rest) :
@@ -146,18 +177,18 @@ theorem lex_int (f : Nat) (ds rest : List Char) (pw : Bool) (acc : List Tok) (hn
   | nil => exact absurd rfl hne
   | cons c tl =>
     have hc := hds c (List.mem_cons_self)
-    obtain ⟨h1, h2, h3, h4, h5, h6, h7, h8, h9, h10, h11, h12, h13⟩ := digit_specials hc
+    obtain ⟨h1, h2, h3, h4, h5, h6, h7, h8, h9, h10, h11, h12, h13, h14, h15, h16, h17, h18, h19, h20⟩ := digit_specials hc
     have hspan : spanWhile isDigit (c :: (tl ++ rest)) = (c :: tl, rest) := by
       have := spanWhile_all (p := isDigit) (xs := c :: tl) (rest := rest) hds (delim_not_digit hd)
       simpa using this
     rcases hd with hd | ⟨c', tl', hd, hc'⟩
     · subst hd
-      simp [lexAux, h1, h2, h3, h4, h5, h6, h7, h8, h9, h10, h11, h12, h13, hc, hspan]
+      simp [lexAux, h1, h2, h3, h4, h5, h6, h7, h8, h9, h10, h11, h12, h13, h14, h15, h16, h17, h18, h19, h20, hc, hspan]
       simp at hspan
       simp [hspan]
     · subst hd
       have hdot : c' ≠ '.' := by rcases hc' with rfl | rfl | rfl | rfl <;> decide
-      simp [lexAux, h1, h2, h3, h4, h5, h6, h7, h8, h9, h10, h11, h12, h13, hc, hspan]
+      simp [lexAux, h1, h2, h3, h4, h5, h6, h7, h8, h9, h10, h11, h12, h13, h14, h15, h16, h17, h18, h19, h20, hc, hspan]
       split
       · rename_i heq; injection heq with heq _; exact absurd heq hdot
       · rename_i heq; injection heq with heq _; exact absurd heq hdot
@@ -174,7 +205,7 @@ theorem lex_float (f : Nat) (ds fs rest : List Char) (pw : Bool) (acc : List Tok
     | cons e fl =>
       have hc := hds c (List.mem_cons_self)
       have he := hfs e (List.mem_cons_self)
-      obtain ⟨h1, h2, h3, h4, h5, h6, h7, h8, h9, h10, h11, h12, h13⟩ := digit_specials hc
+      obtain ⟨h1, h2, h3, h4, h5, h6, h7, h8, h9, h10, h11, h12, h13, h14, h15, h16, h17, h18, h19, h20⟩ := digit_specials hc
       have hspan : spanWhile isDigit (c :: (tl ++ '.' :: e :: (fl ++ rest))) = (c :: tl, '.' :: e :: (fl ++ rest)) := by
         have := spanWhile_all (p := isDigit) (xs := c :: tl) (rest := '.' :: e :: (fl ++ rest)) hds
           (by intro c' tl' h; injection h with h _; subst h; decide)
@@ -182,7 +213,7 @@ theorem lex_float (f : Nat) (ds fs rest : List Char) (pw : Bool) (acc : List Tok
       have hspan2 : spanWhile isDigit (e :: (fl ++ rest)) = (e :: fl, rest) := by
         have := spanWhile_all (p := isDigit) (xs := e :: fl) (rest := rest) hfs (delim_not_digit hd)
         simpa using this
-      simp [lexAux, h1, h2, h3, h4, h5, h6, h7, h8, h9, h10, h11, h12, h13, hc, he, hspan, hspan2]
+      simp [lexAux, h1, h2, h3, h4, h5, h6, h7, h8, h9, h10, h11, h12, h13, h14, h15, h16, h17, h18, h19, h20, hc, he, hspan, hspan2]
 
 /-! ### composing steps: `LexTo cs pw acc rest acc'` — lexing `cs` from the state `(pw, acc)` arrives at the
 text `rest` with the tokens `acc'` (whatever the fuel, as long as it exceeds the length of the text) -/
